@@ -368,7 +368,22 @@ impl<'c, 'd> Parser<'c, 'd> {
                             self.inst_index,
                         ));
                     }
-                    kind => operands.append(&mut self.parse_operand(kind)?),
+                    // The embedded operands are the rest of the instruction:
+                    // an optional operand may be absent and a variadic one
+                    // takes every remaining word.
+                    kind => match loperand.quantifier {
+                        GOpCount::One => operands.append(&mut self.parse_operand(kind)?),
+                        GOpCount::ZeroOrOne => {
+                            if !self.decoder.limit_reached() {
+                                operands.append(&mut self.parse_operand(kind)?)
+                            }
+                        }
+                        GOpCount::ZeroOrMore => {
+                            while !self.decoder.limit_reached() {
+                                operands.append(&mut self.parse_operand(kind)?)
+                            }
+                        }
+                    },
                 }
             }
             Ok(operands)
